@@ -16,6 +16,22 @@ def main(argv):
         if argv[0] == "--digests":
             core.sut()
             return core.print_digests(argv[1], int(argv[2]))
+        if argv[0] == "--c07-traces":
+            core.sut()
+            from .props import C07
+
+            for i in range(int(argv[1])):
+                case = C07.generate(core.run_seed("C07", 20_000_000 + i), argv[2])
+                print("TRACE " + core.digest(C07.trace_of(case)), flush=True)
+            return 0
+        if argv[0] == "--c07-trace":
+            core.sut()
+            import json
+
+            from .props import C07
+
+            print("TRACE " + core.digest(C07.trace_of(json.loads(argv[1]))), flush=True)
+            return 0
         if argv[0] == "setup":
             h = core.sut()
             import numpy, scipy, sklearn  # noqa
